@@ -68,6 +68,8 @@ type mlink struct {
 	ends     [2]*memStream
 	gate     [2]*stallGate // gate[0]: writes a->b block, gate[1]: writes b->a block
 	sessions int           // how many times the tuple was connected
+	// replacedLive: the current session of the tuple was opened while the previous one was alive
+	replacedLive bool
 }
 
 func (l *mlink) other(i int) int {
@@ -96,12 +98,16 @@ type mesh struct {
 	byFS      map[*floodsub.FloodSub]int
 	// everKnown: "observer/tuple/channel" seen in a table snapshot at a settle point
 	everKnown map[string]bool
+	// raw: message data -> the signed message as first seen on a wire
+	raw map[string]*peer.SignedMsg
+	// ended: node -> number of sessions that ended and ran their tear-down (verif hook)
+	ended []int
 }
 
 var meshHashTypes = []hash.HashType{hash.HashType_HashType_UNKNOWN, hash.HashType_HashType_SHA256, hash.HashType_HashType_SHA1, hash.HashType_HashType_BLAKE3}
 
 func newMesh(e *engine, n int) *mesh {
-	m := &mesh{e: e, byFS: map[*floodsub.FloodSub]int{}, nextLink: 1000, everKnown: map[string]bool{}}
+	m := &mesh{e: e, byFS: map[*floodsub.FloodSub]int{}, nextLink: 1000, everKnown: map[string]bool{}, raw: map[string]*peer.SignedMsg{}}
 	for i := 0; i < n; i++ {
 		// the hash type used by Publish is a per-router setting: every value, incl. "unset"
 		nd := newNodeCfg(i, newKey(e.rng), &floodsub.Config{PublishHashType: meshHashTypes[e.rng.Intn(len(meshHashTypes))]})
@@ -110,6 +116,7 @@ func newMesh(e *engine, n int) *mesh {
 		m.firstHop = append(m.firstHop, map[string]peer.ID{})
 		m.published = append(m.published, map[string]int{})
 		m.subs = append(m.subs, nil)
+		m.ended = append(m.ended, 0)
 	}
 	return m
 }
@@ -167,11 +174,17 @@ func (m *mesh) liveSubs(i int, ch string) []*msub {
 
 // gate records the accepted copy of every message at every node (verif hook floodsub.seen).
 func (m *mesh) gate(point string, fs *floodsub.FloodSub, objs ...any) {
-	if point != "floodsub.seen" && point != "floodsub.published" {
+	if point != "floodsub.seen" && point != "floodsub.published" && point != "floodsub.sessionEnded" {
 		return
 	}
 	i, ok := m.byFS[fs]
 	if !ok {
+		return
+	}
+	if point == "floodsub.sessionEnded" {
+		m.mu.Lock()
+		m.ended[i]++
+		m.mu.Unlock()
 		return
 	}
 	if point == "floodsub.published" {
@@ -211,6 +224,9 @@ func (m *mesh) tap(from, to int, link uint64) func([]byte) {
 		}
 		for _, pm := range pkt.GetPublish() {
 			ch, _, auth := stdAuthentic(pm)
+			if _, ok := m.raw[string(d0(pm))]; !ok {
+				m.raw[string(d0(pm))] = pm.CloneVT()
+			}
 			m.seq++
 			m.wires = append(m.wires, wireRec{seq: m.seq, from: from, to: to, link: link, data: string(d0(pm)), auth: auth, ch: ch})
 		}
@@ -234,6 +250,7 @@ func (m *mesh) open(l *mlink) {
 	eb.tap = m.tap(l.b, l.a, l.id)
 	ea.gate, eb.gate = l.gate[0], l.gate[1]
 	l.ends = [2]*memStream{ea, eb}
+	l.replacedLive = l.alive
 	l.alive = true
 	l.sessions++
 	ida, idb := m.nodes[l.a].key.id, m.nodes[l.b].key.id
@@ -358,6 +375,11 @@ func (m *mesh) beliefProblem() (string, string) {
 				class := "belief"
 				if l.sessions > 1 {
 					class = "belief-reconnected"
+				}
+				if l.replacedLive {
+					// a tuple connected again over its LIVE session keeps its table entry: what was announced
+					// to the replaced session only is lost (known finding floodsub-replaced-session-stale)
+					class = "belief-replaced-live"
 				}
 				return class, fmt.Sprintf("node %d believes that node %d (link %d, session %d of that tuple) subscribes to {%s} but node %d subscribes to {%s}",
 					i, j, l.id, l.sessions, strings.Join(bel, ","), j, strings.Join(truth, ","))
@@ -653,7 +675,14 @@ func (e *engine) meshRound(m *mesh, opHead string, pubs []meshPub, branch string
 		if p.foreign {
 			sk = extra.sk
 		}
-		if err := m.nodes[p.node].fs.Publish(m.nodes[p.node].ctx, p.ch, sk, []byte(p.data)); err != nil {
+		// the application's way to publish is the subscription handle (Subscription.Publish: the
+		// handle's own channel, key and context); taken whenever the publisher holds one, on a coin flip
+		if ls := m.liveSubs(p.node, p.ch); !p.foreign && len(ls) != 0 && e.rng.Intn(2) == 0 {
+			if err := ls[e.rng.Intn(len(ls))].s.Publish([]byte(p.data)); err != nil {
+				panic(err)
+			}
+			e.rep.Case(opHead+" #publish-through-handle", "x", "x", "publish.handle", false)
+		} else if err := m.nodes[p.node].fs.Publish(m.nodes[p.node].ctx, p.ch, sk, []byte(p.data)); err != nil {
 			panic(err)
 		}
 		if e.rng.Intn(2) == 0 {
@@ -897,6 +926,11 @@ func (e *engine) meshRound(m *mesh, opHead string, pubs []meshPub, branch string
 			}
 		}
 	}
+	defer func() {
+		if e.a.Prop == "C28" {
+			e.aliasReplay(m, opHead, pubs)
+		}
+	}()
 	// per node: forwarding targets of every accepted message vs the models' execPublish
 	for i := 0; i < n; i++ {
 		_, know, peers, pcArg, peersArg := m.tables(i)
